@@ -13,7 +13,8 @@ Record ecase := {
   ec_opt : option tree;                 (* Go's tree after optimize (VerifParse) *)
   ec_prog : option prog;                (* Go's program (VerifExport) *)
   ec_eval : option (list obs * list obs * mres);   (* Go's Eval: (fetches + registered-operator calls, events, outcome) *)
-  ec_try : option (list obs * list obs * mres)     (* Go's TryEval *)
+  ec_try : option (list obs * list obs * mres);    (* Go's TryEval *)
+  ec_ccalls : option (list (str * list value))     (* registered operators invoked during Compile (nil ctx), in order *)
 }.
 
 Definition cerr_code (e : cerr) : N :=
@@ -40,6 +41,12 @@ Definition chk_eval (c : ecase) : list N :=
   let fetch := fetch_of (ec_env c) in
   let cached := cached_of (ec_avail c) in
   let ev := events cfg in
+  (* 9: operators invoked at compile time (C10) *)
+  (match ec_ccalls c with
+   | Some l => if list_eqb (fun a b => str_eqb (fst a) (fst b) && list_eqb value_eqb (snd a) (snd b))
+                          (filter (fun x => match builtin (fst x) with None => true | Some _ => false end) (compile_time_calls test_custom cfg (ec_tree c))) l
+               then [] else [9%N]
+   | None => [] end) ++
   (* 1: optimiser fidelity *)
   (match ec_opt c with Some g => if tree_eqb t' g then [] else [1%N] | None => [] end) ++
   (* 2: capacity decision (of Go's own optimised tree when available) *)
